@@ -42,7 +42,7 @@ func main() {
 		"the Coq pipeline model has no triggers and no name generation: for those cases the column names come from the generator's copy of the " +
 		"parser's naming rule and the check is the relational oracle (den_top) on the printed rows; " +
 		"non-trivial = at least one output row; distinct by full case text."
-	n := f.Cases(220, 2200)
+	n := f.Cases(200, 2000)
 	cases, err := relq.Generate(rng, n, relq.Profile{GroupBias: 9, MaxDepth: 1, AllowErrors: true, AliasShapes: true, AllowTriple: true, KeyClass: "c03-key-name", TriggerBias: 2, SimpleEvery: 3, Floats: true}, bin, home, work)
 	if err != nil {
 		fmt.Fprintln(os.Stderr, err)
@@ -64,6 +64,7 @@ func main() {
 	}{
 		{relq.Profile{Having: true, Simple: true}, f.Cases(40, 400), "having"},
 		{relq.Profile{ManyKeys: true}, f.Cases(6, 30), "manykeys"},
+		{relq.Profile{Mixed: true}, f.Cases(24, 240), "mixed"},
 		{relq.Profile{OuterTrig: true, Simple: true}, f.Cases(32, 320), "outertrig"},
 	} {
 		more, err := relq.Generate(rng, fam.n, fam.p, bin, home, filepath.Join(work, fam.dir))
